@@ -3,7 +3,8 @@
 # confirms tests + demo in the mutation worktree, stores OUT/ under seeded/<name>/, runs ./check selftest <name>
 set -u
 pid=$1; wt=$2; name=$3; shift 3
-d=/verif/seeded/$name
+ROOT="$(cd "$(dirname "$0")/.." && pwd)"   # the framework checkout this script lives in (selftests may run from a second worktree)
+d=$ROOT/seeded/$name
 mkdir -p $d
 cp $wt/OUT/patch.diff $wt/OUT/demo.cpp $wt/OUT/build_and_run.sh $wt/OUT/meta.json $d/ 2>/dev/null
 echo "--- tests on changed tree"
@@ -17,7 +18,7 @@ done
 echo "--- demo on changed tree"; bash $d/build_and_run.sh $wt > /tmp/demo_changed.log 2>&1; rc1=$?; tail -2 /tmp/demo_changed.log
 echo "--- demo on /repo"; bash $d/build_and_run.sh /repo > /tmp/demo_unchanged.log 2>&1; rc2=$?; tail -2 /tmp/demo_unchanged.log
 echo "demo rc changed=$rc1 unchanged=$rc2 tests_ok=$tests_ok"
-cd /verif && ./check selftest $name 2>&1 | tail -2 | tee /tmp/selftest_$name.log
+cd $ROOT && ./check selftest $name 2>&1 | tail -2 | tee /tmp/selftest_$name.log
 python3 - "$d" "$rc1" "$rc2" "$tests_ok" "$*" "$name" <<'PY'
 import json,sys
 d,rc1,rc2,tok,tests,name=sys.argv[1:7]
